@@ -24,7 +24,7 @@ FUNCTIONS = ['plasTeX.TeX:TeX.processIfContent', 'plasTeX.TeX:TeX.readInteger', 
 RULE = ('one evaluation = one path = one skeleton x one truth assignment class of its tests (z3 splits the unbounded operand space into the classes '
         'the code distinguishes); non-trivial = the skeleton has >= 2 conditionals or an \\ifcase or an \\else')
 BOUNDS = {
-    'quick': 'all skeletons with 1 conditional and every second block of 40 of the 2430 skeletons with 2 conditionals (nesting depth <= 2) over {iftrue,iffalse,ifnum(<,=,>),ifodd,ifdim,ifx,ifdefined(defined/undefined),'
+    'quick': 'all skeletons with 1 conditional and every second block of 12 (offset from VERIF_SEED) of the 2430 skeletons with 2 conditionals (nesting depth <= 2) over {iftrue,iffalse,ifnum(<,=,>),ifodd,ifdim,ifx,ifdefined(defined/undefined),'
              'newif switch with true/false setters, ifcase with 1..3 cases} each with/without \\else, a marker and a \\stepcounter in every branch; '
              'operands unbounded integers / reals / booleans',
     'thorough': 'as quick plus all skeletons with 3 conditionals over {iftrue,iffalse,ifnum,newif,ifcase 1..2 cases} (depth <= 3) and a depth-4 chain family; '
